@@ -18,7 +18,7 @@ func propC19(c *Ctx) propInfo {
 		c.mustDominate(R, cp, 0, []requiredCheck{
 			{name: "checkPayload(payload)", src: paramCallResult("checkPayload"), kind: "bool"},
 			{name: "checkDomain(domain)", src: paramCallResult("checkDomain"), kind: "bool"},
-			{name: "signatureVerify(pubKey, message, signature)", src: callResult(modPath + "/tonconnect.signatureVerify"), kind: "bool"},
+			{name: "signatureVerify(pubKey, message, signature)", src: callResult(modPath+"/tonconnect.signatureVerify", "crypto/ed25519.Verify"), kind: "bool"},
 		}, nil, "")
 		// lifetime comparison: a branch on time.Since(...) > duration; passing edge = false
 		c.mustDominate(R, cp, 0, []requiredCheck{
@@ -36,7 +36,12 @@ func propC19(c *Ctx) propInfo {
 			requiredCheck{name: "compareStateInitWithAddress(account, stateInit)", src: callResult(modPath + "/tonconnect.compareStateInitWithAddress"), kind: "bool"})
 	}
 	c.definitelyAssigned(R, c.mustFn(R, "tonconnect", "ParseStateInit"), 1, "pubKey")
-	c.returnsUnchanged(R, c.mustFn(R, "tonconnect", "signatureVerify"), 0, "crypto/ed25519.Verify")
+	// the verification primitive: ed25519.Verify, called directly or through the one-line wrapper
+	if w := c.fn("tonconnect", "signatureVerify"); w != nil {
+		c.returnsUnchanged(R, w, 0, "crypto/ed25519.Verify")
+	} else if cp != nil {
+		c.check(len(callsTo(cp, "crypto/ed25519.Verify")) >= 1, R, "tonconnect.signatureVerify returns crypto/ed25519.Verify unchanged", cp.Pos(), "CheckProof calls ed25519.Verify directly (no wrapper)", "CheckProof verifies the signature with something other than ed25519.Verify")
+	}
 	c.returnsUnchanged(R, c.mustFn(R, "tonconnect", "compareStateInitWithAddress"), 0, "bytes.Equal")
 	pl := c.mustFn(R, "tonconnect", "Server.CheckPayload")
 	if pl != nil {
@@ -64,7 +69,11 @@ func propC19(c *Ctx) propInfo {
 	c.floor("E8.bounds", 2)
 	// E1: no crash from the entry points that see attacker-supplied proofs
 	roots := c.rootsByName("E1.roots", "tonconnect:Server.CheckProof", "tonconnect:Server.CheckPayload", "tonconnect:ParseStateInit",
-		"tonconnect:convertTonProofMessage", "tonconnect:compareStateInitWithAddress", "tonconnect:createMessage", "tonconnect:signatureVerify")
+		"tonconnect:convertTonProofMessage", "tonconnect:compareStateInitWithAddress", "tonconnect:createMessage")
+	// (the one-line wrapper of ed25519.Verify is reachable from CheckProof when it exists; it is not an entry point of its own)
+	if w := c.fn("tonconnect", "signatureVerify"); w != nil {
+		roots = append(roots, w)
+	}
 	trav := map[string]bool{"tonconnect": true, "ton": true, "wallet": true, "boc": true, "tlb": true, "utils": true}
 	c.panicFree(e1cfg{roots: roots, pkgs: map[string]bool{"tonconnect": true, "ton": true}, traverse: trav, maxDepth: c.e1Depth(), exc: excC19, excP5: map[string]excEntry{}})
 	c.errflow(excC19E2, "tonconnect")
@@ -236,6 +245,18 @@ func (c *Ctx) proofDataflow() {
 	}
 	tp := f.Params[2]
 	fromTP := func(v ssa.Value) bool { return v == ssa.Value(tp) }
+	// calls made by CheckProof itself or by an unexported helper it delegates a step to
+	deepCalls := func(qs ...string) []*ssa.Call {
+		var out []*ssa.Call
+		for _, g := range c.helperClosure(f, 1, func(h *ssa.Function) bool {
+			return plainHelper(h) == nil || h.Name() == "compareStateInitWithAddress" || h.Name() == "createMessage" || h.Name() == "convertTonProofMessage" || h.Name() == "signatureVerify" || h.Name() == "getWalletPubKey"
+		}) {
+			for _, q := range qs {
+				out = append(out, callsTo(g, q)...)
+			}
+		}
+		return out
+	}
 	for _, cl := range callsTo(f, modPath+"/tonconnect.convertTonProofMessage") {
 		c.check(cl.Call.Args[0] == ssa.Value(tp), R, "message fields come from the submitted proof", cl.Pos(), "convertTonProofMessage(tp)", "CheckProof parses something other than the submitted proof")
 	}
@@ -245,7 +266,7 @@ func (c *Ctx) proofDataflow() {
 	}
 	acc := callResult(modPath + "/ton.ParseAccountID")
 	for _, q := range []string{modPath + "/tonconnect.Server.getWalletPubKey", modPath + "/tonconnect.compareStateInitWithAddress"} {
-		for _, cl := range callsTo(f, q) {
+		for _, cl := range deepCalls(q) {
 			okv := false
 			for _, a := range cl.Call.Args {
 				if derivesFrom(a, acc, false) {
@@ -258,14 +279,17 @@ func (c *Ctx) proofDataflow() {
 	si := func(v ssa.Value) bool { _, n, ok := fieldOfLoad(v); return ok && n == "StateInit" }
 	var siArgs []string
 	for _, q := range []string{modPath + "/tonconnect.compareStateInitWithAddress", modPath + "/tonconnect.ParseStateInit"} {
-		for _, cl := range callsTo(f, q) {
+		for _, cl := range deepCalls(q) {
 			a := cl.Call.Args[len(cl.Call.Args)-1]
 			c.check(derivesFrom(a, si, false), R, shortQ(q)+" receives the proof's state-init", cl.Pos(), "tp.Proof.StateInit", "CheckProof passes a state-init other than the proof's to "+shortQ(q))
 			siArgs = append(siArgs, shape(a, 4))
 		}
 	}
 	c.check(len(siArgs) == 2 && siArgs[0] == siArgs[1], R, "the state-init whose hash is compared is the one the key is taken from", f.Pos(), fmt.Sprint(siArgs), fmt.Sprintf("the state-init compared with the address and the one the key is extracted from differ: %v", siArgs))
-	for _, cl := range callsTo(f, modPath+"/tonconnect.signatureVerify") {
+	for _, cl := range deepCalls(modPath+"/tonconnect.signatureVerify", "crypto/ed25519.Verify") {
+		if cl.Parent().Name() == "signatureVerify" {
+			continue
+		}
 		okM := derivesFrom(cl.Call.Args[1], callResult(modPath+"/tonconnect.createMessage"), false)
 		okS := derivesFrom(cl.Call.Args[2], func(v ssa.Value) bool { _, n, ok := fieldOfLoad(v); return ok && n == "signature" }, false)
 		okK := derivesFrom(cl.Call.Args[0], callResult(modPath+"/tonconnect.Server.getWalletPubKey", modPath+"/tonconnect.ParseStateInit"), false)
@@ -304,12 +328,14 @@ func (c *Ctx) proofDataflow() {
 	// client side signs createMessage(convertTonProofMessage(proof)) and stores the signature
 	if g := c.mustFn(R, "tonconnect", "CreateSignedProof"); g != nil {
 		okv := false
-		for _, cl := range callsTo(g, modPath+"/tonconnect.signMessage") {
-			okv = derivesFrom(cl.Call.Args[1], callResult(modPath+"/tonconnect.createMessage"), false)
+		for _, q := range []string{modPath + "/tonconnect.signMessage", "crypto/ed25519.Sign"} {
+			for _, cl := range callsTo(g, q) {
+				okv = derivesFrom(cl.Call.Args[1], callResult(modPath+"/tonconnect.createMessage"), false)
+			}
 		}
 		okStore := false
 		for _, st := range fieldStores(g, "Signature") {
-			okStore = derivesFrom(st.Val, callResult(modPath+"/tonconnect.signMessage"), true)
+			okStore = derivesFrom(st.Val, callResult(modPath+"/tonconnect.signMessage", "crypto/ed25519.Sign"), true)
 		}
 		c.check(okv && okStore, R, "client signs the same createMessage and stores the signature", g.Pos(), "signMessage(key, createMessage(convert(proof)))", "CreateSignedProof no longer signs createMessage's output / stores the signature in the proof")
 	}
